@@ -75,6 +75,7 @@ pub fn xml_profile(max_nodes: usize, known_only: bool, text: TextMode) -> Forest
         free_roots: true,
         exclude_unknown_color3uint8: false,
         exclude_unknown_types: vec![],
+        multi_spelling: false,
     }
 }
 
@@ -231,7 +232,7 @@ pub fn run(ctx: &Ctx) -> PropertyReport {
     );
     let sub = crate::engine::replay_subcheck_or_all(ctx);
     if sub.runs("roundtrip") {
-        let cases = ctx.cfg.cases(30_000, 600_000);
+        let cases = ctx.cfg.cases(100_000, 1_500_000);
         let max_nodes = ctx.cfg.tier.pick(14, 40);
         let mut r = ctx.run_prop(
             "roundtrip",
